@@ -8,7 +8,8 @@ import random
 
 from rxsim.bytesim import gen_cuts, cut, drive, collect, drive_concurrent, merge_order
 
-ALPHA = ['a', 'b', ' ', ',', '"', '\\', '\r', '\x00', '\x04', '\x01', 'é', '€', '\U0001F600', 'z' * 5]
+ALPHA = ['a', 'b', ' ', ',', '"', '\\', '\r', '\x00', '\x04', '\x01', 'é', '€', '\U0001F600', 'z' * 5,
+         '\ufeff', '\x0b', '\x0c', '\x1c', '\x85', '\u2028', '\u2029']      # a BOM and everything str.splitlines() (but not unframe) splits on
 
 
 def lp_item(spec):
@@ -46,6 +47,8 @@ class C15(Check):
             items = []
             for _ in range(n):
                 items.append(''.join(rng.choice(ALPHA) for _ in range(rng.choice([0, 0, 1, 2, 5, 12]))))
+            if items and rng.random() < 0.15:
+                items[0] = rng.choice(['\ufeff', '\ufffe', '\r', '\u2028']) + items[0]     # such a character first in the stream
             case['items'] = items
             stream_len = sum(len(i) + 1 for i in items)
             hot = []
